@@ -475,7 +475,12 @@ func (e *specEnv) index(k *ast.IndexExpr) Val {
 		i := e.fit(idx, types.Typ[types.Int])
 		it := c.idxOf(i.T, i.Typ)
 		_, h := c.elemHeap(e.state(), bt.Elem())
-		return Val{T: Select(Select(h, c.slBase(base.T)), c.arith(token.ADD, c.slOff(base.T), it, types.Typ[types.Int])), Typ: bt.Elem()}
+		el := Select(Select(h, c.slBase(base.T)), c.arith(token.ADD, c.slOff(base.T), it, types.Typ[types.Int]))
+		if isGround(el, nil) {
+			// a stored element is a value of its Go type (e.g. a byte is in 0..255)
+			c.addHyp(c.wellTyped(el, bt.Elem()))
+		}
+		return Val{T: el, Typ: bt.Elem()}
 	case *types.Array:
 		i := e.fit(idx, types.Typ[types.Int])
 		return Val{T: Select(base.T, c.idxOf(i.T, i.Typ)), Typ: bt.Elem()}
